@@ -36,6 +36,7 @@ class SimTransport(asyncio.Transport):
         self._pending = []
         self._flush_scheduled = False
         self._paused = False
+        self._wpaused = False
 
     def get_extra_info(self, name, default=None):
         v6 = ":" in str(self._conn.host)
@@ -70,8 +71,23 @@ class SimTransport(asyncio.Transport):
             if not self._flush_scheduled:
                 self._flush_scheduled = True
                 self._conn.net.loop.call_later(bp, self._flush_pending)
+            if self._conn.net.zero_watermark and not self._wpaused:
+                # a transport whose high-water mark is below this much buffered data (the limits are implementation
+                # specific): the flow-control callback fires inside write(), as in _maybe_pause_protocol()
+                self._wpaused = True
+                self._conn.net.stats["pause_writing_called"] += 1
+                self._flow_callback("pause_writing")
             return
         self._conn._client_wrote(bytes(data))
+
+    def _flow_callback(self, name):
+        try:
+            getattr(self._conn.protocol, name)()
+        except (SystemExit, KeyboardInterrupt):
+            raise
+        except BaseException as exc:
+            self._conn.net.loop.call_exception_handler({"message": f"protocol.{name}() failed", "exception": exc,
+                                                        "transport": self, "protocol": self._conn.protocol})
 
     def _flush_pending(self):
         self._flush_scheduled = False
@@ -80,6 +96,9 @@ class SimTransport(asyncio.Transport):
             return
         for d in pending:
             self._conn._client_wrote(bytes(d))
+        if self._wpaused:
+            self._wpaused = False
+            self._flow_callback("resume_writing")
 
     def close(self):
         if self._closing:
@@ -390,6 +409,7 @@ class SimNet:
         self.connect_attempts = []   # [(time, host, port, outcome)]
         self.stats = Counter()
         self.backpressure = 0        # > 0: client writes are buffered by reference and flushed after that many seconds
+        self.zero_watermark = False  # with backpressure: pause_writing()/resume_writing() around the buffered period
         self.protocol_exceptions = []
         self._tracer = tracer
 
